@@ -155,7 +155,7 @@ pub fn gen_system(t: &mut Tape, cfg: &SysCfg) -> SysCase {
     // states that are re-loaded with their (non-literal) init expression every cycle: init == next
     let mut reload: Vec<bool> = vec![];
     for (k, tpe) in state_types.iter().enumerate() {
-        let is_reload = (k > 0 || init_reads_inputs) && t.chance(24);
+        let is_reload = (k > 0 || init_reads_inputs) && t.chance(if cfg.mc_bias { 44 } else { 24 });
         reload.push(is_reload);
         let init = match if is_reload { 2 } else { t.weighted(if cfg.mc_bias { &[1, 7, 2] } else { &[3, 4, 3] }) } {
             0 => None,
